@@ -9,7 +9,20 @@ class Subject:
     def __init__(self, ctx, content=None, layout=None, style=None, labels=None, allow_hidden=True, **kw):
         rng = ctx.rng
         self.content = content if content is not None else gen.rand_content(rng, **kw)
-        self.ca, self.layout, self.style = gen.realise(self.content, rng, layout, style, allow_hidden)
+        try:
+            self.ca, self.layout, self.style = gen.realise(self.content, rng, layout, style, allow_hidden)
+        except Exception as e:  # noqa: BLE001
+            import os
+            import traceback
+            tb = traceback.extract_tb(e.__traceback__)
+            repo = os.path.realpath(os.environ.get("NPV_REPO", "/repo"))
+            if any(os.path.realpath(fr.filename).startswith(repo + os.sep) for fr in tb):
+                # a library operation that produces a layout (slice, take, pickle, field selection …) raised on a
+                # well-formed column: a concrete failing input
+                ctx.case("subject.layout_operation_raised", {"content": self.content, "layout": layout, "style": style},
+                         {"err": type(e).__name__, "msg": str(e)[:200], "where": traceback.format_exc()[-800:]}, None,
+                         {"ok": "the column in that layout"}, features=(f"layout={layout}",), spec_ok=False, nontrivial=True)
+            raise
         n = len(self.content["rows"])
         self.labels = labels if labels is not None else gen.rand_labels(rng, n)
         self.ty = self.content["ty"]
